@@ -219,26 +219,75 @@ def r4(p, rep):
 def r5(p, rep):
     rep.rule("C02.R5", "matches() is True only after solving returned, False only from its handler", "T-DOM", floor=2)
     f = p.func("matches", "frontend.util")
-    tries = [n for n in walk_no_nested(f.node) if isinstance(n, ast.Try)]
-    if len(tries) != 1:
-        raise AnalysisError("unrecognised idiom: matches() is not a single try/except")
-    t = tries[0]
-    calls = [n for st in t.body for n in ast.walk(st) if isinstance(n, ast.Call) and isinstance(n.func, ast.Name) and n.func.id in ("solve_shapes", "solve_axes", "_solve")]
-    rt = [n for st in t.body + t.orelse for n in ast.walk(st) if isinstance(n, ast.Return)]
-    if not rt:
-        # `try: solve(); except: return False` followed by `return True`
-        rt = [n for n in f.node.body if isinstance(n, ast.Return) and n.lineno > t.lineno]
-    ok_true = bool(calls) and len(rt) == 1 and isinstance(rt[0].value, ast.Constant) and rt[0].value.value is True and calls[0].lineno < rt[0].lineno
-    rep.add("C02.R5", f"{f.qualname}:true", f"{f.module.rel}:{t.lineno}", ok_true, "`return True` follows the solve call inside the try body")
-    rf = [(h, n) for h in t.handlers for st in h.body for n in ast.walk(st) if isinstance(n, ast.Return)]
-    ok_false = bool(rf) and all(isinstance(n.value, ast.Constant) and n.value.value is False for h, n in rf) and not any(isinstance(n, ast.Return) and isinstance(n.value, ast.Constant) and n.value.value is False for st in t.body for n in ast.walk(st))
-    rep.add("C02.R5", f"{f.qualname}:false", f"{f.module.rel}:{t.lineno}", ok_false, "`return False` only in the exception handler")
+    # path-wise: the value returned on a path is True exactly when the path went through the solving call and through
+    # no exception handler (flag variables are followed along the path)
+    cfg = CFG(f.node)
+    byid = {n.id: n for n in cfg.nodes}
+    solve_names = ("solve_shapes", "solve_axes", "_solve", "solve")
+    results = []
+    for path in cfg.paths(cfg.entry, {cfg.exit.id}, limit=2000):
+        env, handled, solved, ret = {}, False, False, "?"
+        for nid in path:
+            nd = byid[nid]
+            if nd.kind == "handler":
+                handled = True
+            if nd.kind == "stmt" and nd.ast is not None:
+                st = nd.ast
+                if any(isinstance(c, ast.Call) and isinstance(c.func, ast.Name) and c.func.id in solve_names for c in ast.walk(st) if not isinstance(st, (ast.Try, ast.If, ast.With, ast.For, ast.While))):
+                    solved = True
+                if isinstance(st, ast.Assign) and len(st.targets) == 1 and isinstance(st.targets[0], ast.Name):
+                    env[st.targets[0].id] = st.value.value if isinstance(st.value, ast.Constant) else "?"
+                if isinstance(st, ast.Return):
+                    v = st.value
+                    ret = v.value if isinstance(v, ast.Constant) else (env.get(v.id, "?") if isinstance(v, ast.Name) else "?")
+        results.append((handled, solved, ret))
+    if not results:
+        raise AnalysisError("unrecognised idiom: matches() has no path to a return")
+    site = f.loc
+    ok_true = all(ret is True and solved for handled, solved, ret in results if not handled) and any(not handled for handled, _, _ in results)
+    rep.add("C02.R5", f"{f.qualname}:true", site, ok_true, "True is returned exactly on the paths on which the solving call returned normally" if ok_true else f"a path that does not go through an exception handler returns something other than True, or skips the solving call: {[r for r in results if not r[0]][:3]}")
+    ok_false = all(ret is False for handled, solved, ret in results if handled) and any(handled for handled, _, _ in results)
+    rep.add("C02.R5", f"{f.qualname}:false", site, ok_false, "False is returned exactly on the paths through the exception handler" if ok_false else f"a path through the exception handler does not return False: {[r for r in results if r[0]][:3]}")
     # solve_shapes / solve_axes re-raise (reraise=True)
+    from sa.cfg import _lookup_def
+
+    def reraise_values(fnode, env, depth=0):
+        """constant values of the `reraise` argument with which _solve is (transitively, through lexical helpers) called"""
+        out = []
+        if depth > 3:
+            return ["?"]
+        for c in ast.walk(fnode):
+            if not (isinstance(c, ast.Call) and isinstance(c.func, ast.Name)):
+                continue
+            if c.func.id == "_solve":
+                v = common.kwarg(c, "reraise")
+                if v is None and len(c.args) > 3:
+                    v = c.args[3]
+                if isinstance(v, ast.Constant):
+                    out.append(v.value)
+                elif isinstance(v, ast.Name) and v.id in env:
+                    out.append(env[v.id])
+                else:
+                    out.append("?")
+            else:
+                h = _lookup_def(c)
+                if h is not None and h is not fnode and any(isinstance(x, ast.Call) and isinstance(x.func, ast.Name) and (x.func.id == "_solve" or _lookup_def(x) is not None) for x in ast.walk(h)):
+                    hp = [a.arg for a in h.args.posonlyargs + h.args.args]
+                    henv = {}
+                    for i, a in enumerate(c.args):
+                        if i < len(hp) and isinstance(a, ast.Constant):
+                            henv[hp[i]] = a.value
+                    for k in c.keywords:
+                        if k.arg and isinstance(k.value, ast.Constant):
+                            henv[k.arg] = k.value.value
+                    out += reraise_values(h, henv, depth + 1)
+        return out
+
     for name in ("solve_shapes", "solve_axes"):
         g = p.func(name, "frontend.util")
-        calls = [n for n in walk_no_nested(g.node) if isinstance(n, ast.Call) and isinstance(n.func, ast.Name) and n.func.id == "_solve"]
-        ok = bool(calls) and all(isinstance(common.kwarg(c, "reraise"), ast.Constant) and common.kwarg(c, "reraise").value is True for c in calls)
-        rep.add("C02.R5", f"{g.qualname}:reraise", g.loc, ok, "failures are re-raised to the caller (reraise=True)")
+        vals = reraise_values(g.node, {})
+        ok = bool(vals) and all(v is True for v in vals)
+        rep.add("C02.R5", f"{g.qualname}:reraise", g.loc, ok, "failures are re-raised to the caller (reraise=True)" if ok else f"_solve is reached with reraise={vals}: a failure is swallowed and None is returned instead of the documented error")
 
 
 def r6(p, rep):
@@ -331,6 +380,8 @@ def _r9_in(p, rep, f):
             sel = node.func.value
         elif isinstance(node, ast.Subscript) and isinstance(node.ctx, ast.Load) and isinstance(node.slice, ast.Constant) and node.slice.value in (0, -1) and isinstance(node.value, ast.Call) and isinstance(node.value.func, ast.Name) and node.value.func.id in ("list", "tuple", "sorted") and node.value.args:
             sel = node.value.args[0]
+        if isinstance(node, ast.Assign) and len(node.targets) == 1 and isinstance(node.targets[0], (ast.Tuple, ast.List)) and len(node.targets[0].elts) == 1 and isinstance(node.value, ast.Name):
+            sel = node.value  # `(x,) = S`: takes the only element
         if not isinstance(sel, ast.Name):
             continue
         # only selections from the solver result: a reaching definition of the name is (derived from) the value
